@@ -296,6 +296,9 @@ class Engine:
         con = self.current[0]
         if key not in con.modifies and "*" not in con.modifies:
             self.emit("frame", key, st, False, note=f"write to {key} outside the declared frame {con.modifies}")
+        for label, frame in getattr(self, "loop_frames", []):
+            if key not in frame:
+                self.emit("frame", f"{label}:{key}", st, False, note=f"write to {key} inside {label}, whose declared frame is {frame}")
 
     def heap_keys_parts(self, key):
         cls, f = key.split(".")
